@@ -488,6 +488,144 @@ Proof.
 Qed.
 
 (* ------------------------------------------------------------------------------------------------ *)
+(* 4b. octave-once marks in front of a lettered note: the marks raise / lower the octave step by step (each step
+       clamped to 0..10) and remember what they applied; the note sounds there and takes it back               *)
+
+Lemma upd_cur_once X d f : upd_cur (s_set_octave_once X d) f = s_set_octave_once (upd_cur X f) d.
+Proof. reflexivity. Qed.
+Lemma harm_once X d : s_harmony_flag (s_set_octave_once X d) = s_harmony_flag X.
+Proof. reflexivity. Qed.
+Lemma harm_upd X f : s_harmony_flag (upd_cur X f) = s_harmony_flag X.
+Proof. reflexivity. Qed.
+Lemma cur_track_once X d : cur_track (s_set_octave_once X d) = cur_track X.
+Proof. reflexivity. Qed.
+Lemma cur_ok_once X d : cur_ok X -> cur_ok (s_set_octave_once X d).
+Proof. exact (fun H => H). Qed.
+
+(* the state between the marks and the note: octave o on the current track, d pending *)
+Definition mid (s : song) (o d : Z) : song := s_set_octave_once (upd_cur s (fun t => tr_set_octave t o)) d.
+
+Lemma mid_self s : cur_ok s -> mid s (tr_octave (cur_track s)) (s_octave_once s) = s.
+Proof.
+  intros Hc. unfold mid, upd_cur. rewrite (upd_nth_id _ (track_new 0 0)).
+  - rewrite s_set_tracks_same. destruct s; reflexivity.
+  - fold (cur_track s). destruct (cur_track s); reflexivity.
+Qed.
+Lemma cur_track_mid s o d : cur_ok s -> cur_track (mid s o d) = tr_set_octave (cur_track s) o.
+Proof.
+  intros Hc. unfold mid. change (cur_track (s_set_octave_once (upd_cur s (fun t => tr_set_octave t o)) d))
+    with (cur_track (upd_cur s (fun t => tr_set_octave t o))). apply cur_track_upd_cur. exact Hc.
+Qed.
+Lemma mid_mid s o d o' d' : s_set_octave_once (upd_cur (mid s o d) (fun t => tr_set_octave t o')) d' = mid s o' d'.
+Proof.
+  unfold mid.
+  rewrite upd_cur_once, upd_cur_upd_cur. reflexivity.
+Qed.
+
+Lemma once_marks ec rest s : cur_ok s -> s_break_flag s = 0 -> forall marks o d,
+  SEM ec (leaves (map TOctaveOnce marks ++ rest)) (Ok (mid s o d))
+  = SEM ec (leaves rest) (Ok (mid s (once_oct marks o) (d + (once_oct marks o - o)))).
+Proof.
+  intros Hc Hb. induction marks as [|k r IH]; intros o d.
+  - cbn [map app once_oct fold_left]. replace (d + (o - o)) with d by lia. reflexivity.
+  - cbn [map app leaves]. rewrite SEM_leaf by exact Hb. cbn [step_song]. rewrite cur_track_mid by exact Hc.
+    cbn [tr_octave tr_set_octave]. change (s_octave_once (mid s o d)) with d. rewrite mid_mid, IH.
+    rewrite clamp_eq. change (once_oct (k :: r) o) with (once_oct r (clampz 0 10 (o + k))).
+    f_equal. f_equal. f_equal. lia.
+Qed.
+
+Lemma R_set_once0 s p : R s p -> R (s_set_octave_once s 0) p.
+Proof. intros (A1 & A2 & A3 & A4 & A5 & A6 & A7 & A8 & A9 & A10 & A11 & A12 & A13). unfold R. repeat split; assumption. Qed.
+
+Lemma once_ok marks base acc natural len gate vel timing oct :
+  wf_cmd (COnce marks base acc natural len gate vel timing oct) = true ->
+  item_ok (COnce marks base acc natural len gate vel timing oct).
+Proof.
+  cbn [wf_cmd]. intros Hwf. apply andb_prop in Hwf. destruct Hwf as [_ Hwf].
+  repeat (apply andb_prop in Hwf; destruct Hwf as [Hwf ?]).
+  intros d steps s p f Hd Hi Hf HR. destruct f as [|f]; [cbn [depth] in Hf; lia|].
+  cur_eqs HR.
+  pose proof HR as (Htr & Hcur & Hlt & Htb & Hkf & Hks & Huk & Hva & Hhf & Hhe & Hoo & Hbf & Hpo).
+  pose proof (R_cur_ok s p HR) as Hc.
+  change (prog_cmd (COnce marks base acc natural len gate vel timing oct))
+    with (leaves (map TOctaveOnce marks ++
+                  [TNote base acc (if natural then 1 else 0) (plen len) (osent gate 0) (vel_sentinel vel timing oct)
+                         (osent timing ISIZE_MIN) (osent oct (-1)) 0])).
+  replace (Ok s) with (Ok (mid s (tr_octave (cur_track s)) (s_octave_once s))) by (rewrite mid_self by exact Hc; reflexivity).
+  rewrite once_marks by assumption. rewrite Hoo, Eoct.
+  set (o0 := t_oct (cur p)). set (o1 := once_oct marks o0).
+  cbn [leaves]. rewrite SEM_leaf by exact Hbf. unfold SEM. cbn [LoopSpec.sem]. cbn [step_song].
+  replace (0 + (o1 - o0)) with (o1 - o0) by lia. set (dl := o1 - o0). set (M := mid s o1 dl).
+  assert (HcM : cur_ok M) by exact (cur_ok_upd_cur s _ Hc).
+  assert (HtM : cur_track M = tr_set_octave (cur_track s) o1) by (apply cur_track_mid; exact Hc).
+  assert (HiM : cur_idle M) by (unfold cur_idle, idle; rewrite HtM; exact Ersv).
+  rewrite (exec_note_idle M _ _ _ _ _ _ _ _ _ HcM HiM). unfold exec_note_plain.
+  set (ev := ev_note _ _ _ _ _). set (nl := calc_length _ _ _). cbv zeta. unfold emit_note_plain.
+  set (s1 := upd_cur M (fun t => tr_set_timepos t (tr_timepos t + nl))).
+  change (s_octave_once s1) with dl.
+  assert (Hs1 : cur_track s1 = tr_set_timepos (cur_track M) (tr_timepos (cur_track M) + nl))
+    by (apply cur_track_upd_cur; exact HcM).
+  (* the specification side *)
+  assert (Hpc : (p_cur p < length (p_tracks p))%nat) by (rewrite <- Hcur, <- (Forall2_len _ _ _ Htr); exact Hlt).
+  assert (Hc1 : cur (with_cur p (fun t => set_oct t o1)) = set_oct (cur p) o1)
+    by (unfold cur, with_cur; cbn [p_tracks p_cur]; apply (nth_upd (fun t => set_oct t o1)); exact Hpc).
+  cbn [NoteSem.sem]. fold o0. fold o1. unfold play. rewrite Hc1. rewrite !with_cur_with_cur.
+  assert (EL : nl = len_of p len (t_len (cur p))).
+  { unfold nl. rewrite HtM. change (s_timebase M) with (s_timebase s). cbn [tr_length tr_set_octave].
+    rewrite len_ok by assumption. unfold len_of. rewrite Htb, Elen. reflexivity. }
+  assert (EV : note_of_event ev = mkNote (t_ch (cur p))
+                 (key_of (with_cur p (fun t => set_oct t o1)) base acc natural oct) (t_pos (cur p) + opt_or timing (t_timing (cur p)))
+                 (Z.quot (len_of p len (t_len (cur p)) * opt_or gate (t_gate (cur p))) 100)
+                 (clampz 0 127 (opt_or vel (t_vel (cur p))))).
+  { unfold ev. fold nl. rewrite HtM. cbn [tr_timepos tr_channel tr_qlen tr_velocity tr_timing tr_set_octave].
+    rewrite EL, sent_gate, sent_timing by assumption. rewrite (sent_vel vel timing oct) by assumption.
+    unfold note_of_event. cbn [ev_note e_ch e_v1 e_time e_v2 e_v3].
+    rewrite !clamp_eq, Epos, Ech, Egate, Evel, Etim. f_equal.
+    unfold key_of. rewrite Hc1. cbn [set_oct t_oct t_key p_keyshift with_cur]. f_equal.
+    unfold note_number. rewrite HtM. change (s_use_key_shift M) with (s_use_key_shift s). rewrite Huk.
+    cbn [tr_octave tr_track_key tr_set_octave]. rewrite sent_oct by assumption.
+    change (s_key_shift M) with (s_key_shift s). rewrite Hks, Ekey.
+    pose proof (is_base_range base ltac:(assumption)) as Hb. rewrite (Z.mod_small base 12) by lia.
+    unfold key_flag_at, keyflag_of. change (s_key_flag M) with (s_key_flag s). rewrite Hkf.
+    cbn [p_keyflag with_cur]. rewrite (Z.mod_small base 12) by lia. destruct natural, oct; reflexivity. }
+  assert (Hh1 : s_harmony_flag s1 = false) by exact Hhf.
+  (* the final track on both sides *)
+  assert (Fin : forall G : track -> track,
+            (forall t, tr_octave (G t) = o0 /\ tr_timepos (G t) = tr_timepos t + nl /\ tr_events (G t) = tr_events t ++ [ev] /\
+                       tr_channel (G t) = tr_channel t /\ tr_length (G t) = tr_length t /\ tr_velocity (G t) = tr_velocity t /\
+                       tr_qlen (G t) = tr_qlen t /\ tr_timing (G t) = tr_timing t /\ tr_track_key (G t) = tr_track_key t /\
+                       tr_tie_notes (G t) = tr_tie_notes t /\ tr_rsv (G t) = tr_rsv t) ->
+            R (s_set_octave_once (upd_cur s G) 0)
+              (with_cur p (fun t => set_oct (set_pos (add_note (set_oct t o1)
+                 (mkNote (t_ch (set_oct (cur p) o1)) (key_of (with_cur p (fun t0 => set_oct t0 o1)) base acc natural oct)
+                         (t_pos (set_oct (cur p) o1) + opt_or timing (t_timing (set_oct (cur p) o1)))
+                         (Z.quot (len_of (with_cur p (fun t0 => set_oct t0 o1)) len (t_len (set_oct (cur p) o1))
+                                  * opt_or gate (t_gate (set_oct (cur p) o1))) 100)
+                         (clampz 0 127 (opt_or vel (t_vel (set_oct (cur p) o1))))))
+                 (t_pos (set_oct t o1) + len_of (with_cur p (fun t0 => set_oct t0 o1)) len (t_len (set_oct (cur p) o1)))) o0))).
+  { intros G HG. apply R_set_once0. apply R_upd_cur; [exact HR|].
+    destruct (HG (cur_track s)) as (G1 & G2 & G3 & G4 & G5 & G6 & G7 & G8 & G9 & G10 & G11).
+    change (len_of (with_cur p (fun t0 => set_oct t0 o1)) len (t_len (set_oct (cur p) o1))) with (len_of p len (t_len (cur p))).
+    apply track_rel_intro; proj; try congruence.
+    rewrite G3, notes_of_app. apply Permutation_app; [exact Eperm|].
+    change (notes_of [ev]) with [note_of_event ev]. rewrite EV. reflexivity. }
+  destruct (dl =? 0) eqn:Ed.
+  - rewrite Hh1. cbn [Z.geb Z.compare]. rewrite Hs1, HtM. cbn [tr_tie_notes tr_set_timepos tr_set_octave]. rewrite Etie. cbn [negb].
+    eexists. split; [reflexivity|].
+    apply Z.eqb_eq in Ed. unfold s1, M, mid. rewrite !upd_cur_once, !upd_cur_upd_cur, Ed.
+    apply Fin. intros t. cbn [tr_octave tr_timepos tr_events tr_channel tr_length tr_velocity tr_qlen tr_timing tr_track_key
+      tr_tie_notes tr_rsv tr_push_event tr_set_timepos tr_set_octave tr_set_events]. repeat split. unfold dl in Ed. lia.
+  - rewrite harm_once, harm_upd, Hh1. cbn [Z.geb Z.compare].
+    rewrite cur_track_once, (cur_track_upd_cur s1) by (exact (cur_ok_upd_cur M _ HcM)). rewrite Hs1, HtM.
+    cbn [tr_tie_notes tr_set_timepos tr_set_octave]. rewrite Etie. cbn [negb].
+    eexists. split; [reflexivity|].
+    unfold s1, M, mid. rewrite !upd_cur_once, !upd_cur_upd_cur.
+    change (s_set_octave_once (s_set_octave_once ?X dl) 0) with (s_set_octave_once X 0).
+    apply Fin. intros t. cbn [tr_octave tr_timepos tr_events tr_channel tr_length tr_velocity tr_qlen tr_timing tr_track_key
+      tr_tie_notes tr_rsv tr_push_event tr_set_timepos tr_set_octave tr_set_events]. repeat split. unfold dl. lia.
+Qed.
+
+(* ------------------------------------------------------------------------------------------------ *)
 (* 5. every well-formed command, by induction over the syntax tree                                    *)
 
 Lemma forallb_item_ok l : (forall x, In x l -> wf_cmd x = true -> item_ok x) -> forallb wf_cmd l = true -> list_ok l.
@@ -526,6 +664,7 @@ Proof.
   - eapply item_ok_leaf; [reflexivity|]. apply step_key_flag.
   - eapply item_ok_leaf; [reflexivity|]. apply step_key_shift.
   - eapply item_ok_leaf; [reflexivity|]. apply step_track_key.
+  - apply once_ok. exact Hwf.
 Qed.
 
 Theorem prog_ok l : wf_prog l = true -> list_ok l.
@@ -606,4 +745,45 @@ Theorem notes_simulation p : wf_prog p = true ->
 Proof.
   intros H. destruct (exec_simulation_top p H song_new (prog_depth p) (fuel_of p) R_init (le_n _) (le_n _)) as (s & E & HR).
   exists s. split; [exact E|]. apply R_same_notes. exact HR.
+Qed.
+
+(* octave-once marks and their note, on their own: the machine and the specification agree from any pair of related
+   states; the octave is afterwards what it was before the marks (on both sides); the one note added sounds in the octave
+   the marks lead to, each mark clamped to 0..10 (or in the octave written on the note itself) *)
+Theorem once_simulation marks base acc natural len gate vel timing oct :
+  wf_cmd (COnce marks base acc natural len gate vel timing oct) = true ->
+  forall (d steps : nat) (s : song) (q : perf), (S (length marks) < steps)%nat -> R s q ->
+  let c := COnce marks base acc natural len gate vel timing oct in
+  exists s', exec_f (S (S d)) steps (tok_cmd c) (Ok s) = Ok s' /\ R s' (NoteSem.sem 1 c q) /\
+    tr_octave (cur_track s') = tr_octave (cur_track s) /\
+    t_oct (cur (NoteSem.sem 1 c q)) = t_oct (cur q) /\
+    exists n, t_notes (cur (NoteSem.sem 1 c q)) = t_notes (cur q) ++ [n] /\
+      n_key n = clampz 0 127 ((match oct with Some o => o | None => once_oct marks (t_oct (cur q)) end) * 12 + base + acc
+                              + (if natural then 0 else keyflag_of q base) + p_keyshift q + t_key (cur q)).
+Proof.
+  intros Hwf d steps s q Hs HR c.
+  assert (Hw : wf_prog [c] = true) by (unfold wf_prog, c; cbn [forallb]; rewrite Hwf; reflexivity).
+  destruct (exec_simulation_from [c] Hw (S d) steps s q 1%nat) as (s' & E & R');
+    try (unfold c; cbn [prog_depth fold_right depth flat_cost_l inner_cost_l map flat_cost inner_cost list_sum list_max Nat.max Nat.add]; lia);
+    [exact HR|].
+  cbn [tokens_of flat_map] in E. rewrite app_nil_r in E. cbn [sem_prog] in R'.
+  exists s'. split; [exact E|]. split; [exact R'|].
+  pose proof HR as (Htr & Hcur & Hlt & _).
+  assert (Hpc : (p_cur q < length (p_tracks q))%nat) by (rewrite <- Hcur, <- (Forall2_len _ _ _ Htr); exact Hlt).
+  assert (Hq : forall g, cur (with_cur q g) = g (cur q)).
+  { intros g. unfold cur, with_cur. cbn [p_tracks p_cur]. apply (nth_upd g). exact Hpc. }
+  assert (Hsem : cur (NoteSem.sem 1 c q) =
+    set_oct (set_pos (add_note (set_oct (cur q) (once_oct marks (t_oct (cur q))))
+       (mkNote (t_ch (cur q)) (key_of (with_cur q (fun t => set_oct t (once_oct marks (t_oct (cur q))))) base acc natural oct)
+               (t_pos (cur q) + opt_or timing (t_timing (cur q)))
+               (Z.quot (len_of q len (t_len (cur q)) * opt_or gate (t_gate (cur q))) 100)
+               (clampz 0 127 (opt_or vel (t_vel (cur q))))))
+       (t_pos (cur q) + len_of q len (t_len (cur q)))) (t_oct (cur q))).
+  { unfold c. cbn [NoteSem.sem]. unfold play. rewrite !with_cur_with_cur, Hq, Hq. reflexivity. }
+  split; [|split].
+  - destruct (R_cur _ _ R') as (_ & _ & _ & Eo' & _). destruct (R_cur _ _ HR) as (_ & _ & _ & Eo & _).
+    rewrite Eo', Eo, Hsem. reflexivity.
+  - rewrite Hsem. reflexivity.
+  - rewrite Hsem. eexists. split; [reflexivity|]. cbn [n_key]. unfold key_of. rewrite Hq.
+    cbn [set_oct t_oct t_key p_keyshift with_cur]. destruct oct; reflexivity.
 Qed.
